@@ -61,10 +61,10 @@ Proof.
   apply Nat.eqb_eq in A. exfalso. apply Hl. rewrite <- A. rewrite Z2Nat.id by lia. reflexivity.
 Qed.
 
-(* the errors the English lexer reads back from their Display form: all but #N/IMPL (F01) *)
+(* the English lexer reads every error back from its Display form (12 of 12 since /repo 4a681a0) *)
 Lemma xlsx_err_tokens_b :
-  forallb (fun n => Bool.eqb (match err_tokens (xlsx_names id_text) (Z.of_nat n) with [TError k] => Z.of_nat n =? k | _ => false end)
-                             (negb (Nat.eqb n Names.E_NIMPL))) (seq 0 Names.n_err) = true.
+  forallb (fun n => match err_tokens (xlsx_names id_text) (Z.of_nat n) with [TError k] => Z.of_nat n =? k | _ => false end)
+          (seq 0 Names.n_err) = true.
 Proof. vm_compute. reflexivity. Qed.
 
 (* the C09 theorem at the xlsx mode *)
